@@ -395,6 +395,8 @@ pub fn footprint(e: &Ev) -> Vec<(Obj, bool)> {
 /// (keep running the current thread, else the lowest enabled id).
 pub fn run_schedule(prog: &Program, prefix: &[usize], opts: RunOpts) -> Execution {
     run::reset_env();
+    // (programs named "...-dtunknown-..." run on a filesystem whose listings report no entry type)
+    shim::set_dtype_unknown(prog.name.contains("dtunknown"));
     let sc = Scratch::new();
     let dirs = Dirs::under(&sc.root, prog.cfg.readers.len());
     plant_pre(prog, &dirs);
